@@ -21,7 +21,7 @@ const (
 	oNIL        // credentials accepted, nil principal
 	oREJ        // credentials presented and rejected with the scheme's error
 	oOKS        // scope-limited credentials: accepted with P<k> iff every required scope is granted
-	//             (granted: r and the scopes of list position 0), otherwise rejected "insufficient scope"
+	//             (granted: r and the scheme's own scope of list position 0), otherwise rejected "insufficient scope"
 	nOut
 )
 
@@ -245,8 +245,10 @@ func scopesOf(pos, s int) []string {
 	return []string{own, "r"}
 }
 
-// granted to a scope-limited (oOKS) credential
-func granted(scope string) bool { return scope == "r" || strings.HasSuffix(scope, ".0") }
+// granted to a scope-limited (oOKS) credential of scheme s: the common scope and the
+// scheme's own scope of list position 0 - so the credential is accepted exactly when the
+// scheme is asked for the scopes that the alternative at position 0 declares for it
+func granted(s int, scope string) bool { return scope == "r" || scope == schemeName[s]+".0" }
 
 func canonScopes(ss []string) string {
 	set := map[string]bool{}
